@@ -87,6 +87,12 @@ func genC05(g GenCtx) interface{} {
 	b := &treeBuilder{sc: sc}
 	b.add(-1, "sub", TAct{Reader: "eager"}) // the witness
 	nNodes := 1 + rng.Intn(8)
+	if rng.Intn(12) == 0 {
+		nNodes = 12 + rng.Intn(30) // many subscribers on few publishers
+	}
+	if rng.Intn(12) == 0 {
+		sc.Init = append(sc.Init, bulkInit(rng, bulkSize(rng))...)
+	}
 	nWrites := rng.Intn(60)
 	late := rng.Intn(2) == 0
 	mk := func() {
@@ -141,6 +147,11 @@ func genC06(g GenCtx) interface{} {
 	nkeys := 1 + rng.Intn(4)
 	sc.Init = genInit(rng, nkeys)
 	sc.HoldFirstList = rng.Intn(4) == 0
+	if rng.Intn(12) == 0 {
+		sc.Init = append(sc.Init, bulkInit(rng, bulkSize(rng))...)
+		sc.Bufsiz = 100
+		sc.NoOverflow = false // a refilter over hundreds of objects is one batch larger than any buffer
+	}
 	b := &treeBuilder{sc: sc}
 	nNodes := 1 + rng.Intn(6)
 	mk := func() {
